@@ -88,11 +88,18 @@ def op_probes(mode: str) -> List[Tuple[str, Dict[str, Any]]]:
             continue
         ty = LS.TXN_FIELDS[f][1]
         add("ItxnField:%s" % f, ("Seq", ("Itxn", "Begin"), ("ItxnField", f, U0 if ty == "U" else B0), ("Itxn", "Submit"), ("Return", ("Int", 1))))
-    for i in (0, 1, 15):
+    for i in (0, 1, 15, 16, 17, 255, 256):
         add("Gtxn:%d" % i, ret_u(("Gtxn", i, "Amount")))
-    add("AppArg", ret_b(("AppArg", 0)))
+    for i in (0, 15, 16):
+        add("GtxnArg:%d" % i, ret_b(("GtxnArgRt", i, 0)))
+    for i in (0, 1, 255, 256):
+        add("AppArg:%d" % i if i else "AppArg", ret_b(("AppArg", i)))
     add("LsigArg", ret_b(("LsigArg", 0)))
-    add("LsigArg:255", ret_b(("LsigArg", 255)))
+    for i in (255, 256, 257):
+        add("LsigArg:%d" % i, ret_b(("LsigArg", i)))
+    # explicitly numbered scratch variables at the ends of the range
+    for sid in (0, 255, 256, 300):
+        add("ScratchVar:slot%d" % sid, ("Seq", ("Store", "sv", U0), ("Return", ("Load", "sv"))), {"sv": {"t": "u", "slot": sid}})
     # remaining public operators, through the generic constructor form
     def C(name, *args):
         return ("PyCall", name) + args
@@ -137,6 +144,13 @@ def op_probes(mode: str) -> List[Tuple[str, Dict[str, Any]]]:
     add("InnerTxn.amount", ("Seq", ("Itxn", "Begin"), ("ItxnField", "TypeEnum", ("Int", 1)), ("Itxn", "Submit"), ret_u(C("InnerTxn.amount"))))
     add("InnerTxn.logs", ("Seq", ("Itxn", "Begin"), ("ItxnField", "TypeEnum", ("Int", 1)), ("Itxn", "Submit"), ret_b(C("InnerTxn.last_log"))))
     add("GeneratedID", ret_u(C("GeneratedID", U0)))
+    # values and ids of earlier group members: constant and run-time transaction index x slot ids around the one-byte immediate
+    for slot in (0, 255, 256, 300):
+        add("ImportScratchValue:const-txn:slot%d" % slot, ret_u(C("ImportScratchValue", ("PyInt", 0), ("PyInt", slot))))
+        add("ImportScratchValue:rt-txn:slot%d" % slot, ret_u(C("ImportScratchValue", ("Bin", "Mod", U0, ("Int", 2)), ("PyInt", slot))))
+    for ti in (0, 15, 16, 255, 256):
+        add("ImportScratchValue:txn%d" % ti, ret_u(C("ImportScratchValue", ("PyInt", ti), ("PyInt", 1))))
+        add("GeneratedID:txn%d" % ti, ret_u(C("GeneratedID", ("PyInt", ti))))
     add("Global.opcode_budget", ret_u(("Global", "OpcodeBudget")))
     # control constructs
     V = {"i": {"t": "u"}}
